@@ -188,10 +188,11 @@ Definition load_section (c : cfg) (data : list byte) (size : N) (m : module) (ty
   else if ty =? SEC_IMPORTS then load_imports fuel data size off ssz 0 m
   else Loaded m.
 
-(* the section directory loop, i = 0 .. section_count-1 *)
-Fixpoint load_dir (c : cfg) (n : nat) (data : list byte) (size : N) (i : N) (m : module) : lres :=
+(* the section directory loop, i = 0 .. section_count-1; [dend] accumulates max(dir_end, offset_i + size_i) in uint32_t for the
+   trailing-bytes test that follows the loop ("nothing may follow the last section": data_end != size -> NULL) *)
+Fixpoint load_dir (c : cfg) (n : nat) (data : list byte) (size : N) (i : N) (m : module) (dend : N) : lres :=
   match n with
-  | O => Loaded m
+  | O => if dend =? size then Loaded m else LReject
   | S k =>
     let d := 32 + i * 12 in
     match rd_u32 data size d, rd_u32 data size (d + 4), rd_u32 data size (d + 8) with
@@ -199,7 +200,7 @@ Fixpoint load_dir (c : cfg) (n : nat) (data : list byte) (size : N) (i : N) (m :
         let bad := if fx_sec c then (size <? off + ssz) else (size <? add32 off ssz) in
         if bad then LReject else
         match load_section c data size m ty off ssz with
-        | Loaded m' => load_dir c k data size (i + 1) m'
+        | Loaded m' => load_dir c k data size (i + 1) m' (N.max dend (add32 off ssz))
         | r => r
         end
     | _, _, _ => LCrash
@@ -217,7 +218,7 @@ Definition deserializeC (c : cfg) (data : list byte) : lres :=
       if 16 <? nsec then LReject else
       if negb (crc32 (skipn 32 data) =? sum) then LReject else
       if size <? add32 32 (mul32 nsec 12) then LReject else
-      load_dir c (N.to_nat nsec) data size 0 (empty_module flags entry)
+      load_dir c (N.to_nat nsec) data size 0 (empty_module flags entry) (add32 32 (mul32 nsec 12))
   | _, _, _, _, _, _ => LCrash
   end.
 
